@@ -113,11 +113,27 @@ fn main() {
         None => None,
     };
     let t = Timer::start();
-    let res = match vcommon::checks::run(&ctx, replay_case.as_ref()) {
-        Some(r) => r,
-        None => {
+    let ran = std::panic::catch_unwind(std::panic::AssertUnwindSafe(|| vcommon::checks::run(&ctx, replay_case.as_ref())));
+    let res = match ran {
+        Ok(Some(r)) => r,
+        Ok(None) => {
             eprintln!("no check for property {}", prop);
             std::process::exit(2);
+        }
+        Err(_) => {
+            // a panic escaped the check. If it was raised inside the crate under test it is reported as a violation of
+            // this property (no listed property tolerates a panic on the paths its check drives); a panic raised by the
+            // harness itself is an infrastructure failure (exit 2), never a violation.
+            let what = vcommon::infra::LAST_UNCAUGHT.lock().ok().and_then(|g| g.clone()).unwrap_or_else(|| "panic".to_string());
+            let in_crate = what.contains(vcommon::registry::REPO_PATH) || std::env::var("RTCM_REPO").map(|r| what.contains(&r)).unwrap_or(false);
+            if !in_crate {
+                eprintln!("INFRA: the check itself panicked: {}", what);
+                std::process::exit(2);
+            }
+            let v = Violation { property: prop.clone(), signature: panic_signature(&what), message: format!("the crate panicked outside the check's guarded sections: {}", what), case: serde_json::json!({"kind":"uncaught-panic","panic":what}) };
+            let mut ev = Evidence::new();
+            ev.eval();
+            vcommon::infra::CheckResult { evidence: ev, rule: "aborted by a panic inside the crate under test".into(), assumptions: vec![], violations: vec![v] }
         }
     };
     // regression tier: saved failing inputs of earlier findings (regressions/<id>/*.json) are replayed on every run
